@@ -73,6 +73,10 @@ def term_rows(m):
     return [(f'term{j}', [A.TERM if i == j else A.NULL_I for i in range(w)]) for j in range(w)]
 
 
+def V_hidden(n):
+    return dict(A.V(f'={n + 1}-', 'BARLINES', '.'), hidden=True)
+
+
 def content_row(m, kind, n, seed, with_key=False):
     """a palette-filled row: kind in d (data) i (interpretation) c (field comment) b (barline) z (null data) n (null interp)"""
     types = m.types()
@@ -87,6 +91,10 @@ def content_row(m, kind, n, seed, with_key=False):
         return [A.BAR(n * 5 + seed)] * w
     if kind == 'e':     # a plain numbered barline: two of them in a row are an empty measure between two barlines of the SAME type
         return [A.V(f'={n + 1}', 'BARLINES', '=')] * w
+    if kind in 'hH':    # an INVISIBLE barline (exported as a null placeholder) in the first (h) / last (H) column only, the same barline visible in the others.
+        # Only used where the oracle is a relation between exports (C06, C13, C05): C03 cannot judge hidden tokens (DESIGN 2.7)
+        j = 0 if kind == 'h' else w - 1
+        return [V_hidden(n) if i == j else A.V(f'={n + 1}', 'BARLINES', '=') for i in range(w)]
     if kind == 'k':     # a clef on every kern-like column (agnostic encodings need a clef in force)
         return [A.V(A.CLEFS[(n + i + seed) % len(A.CLEFS)], 'CLEF') if types[i] in A.KERN_LIKE else A.NULL_I for i in range(w)]
     if kind in 'KTCMDN':   # K key signature / T time signature on every kern-like column; C clef / M time signature on the first one only; D clef / N key signature on the last one only
@@ -133,7 +141,7 @@ def seq_model(headers, seq, seed, cap=6, pre=(), with_key=False, close=True):
         w = m.width()
         if w == 0:
             return None
-        if s[0] in 'dicbeznkKTCMDN':
+        if s[0] in 'dicbeznkKTCMDNhH':
             m.add(content_row(m, s[0], n, seed, with_key))
         elif s == 'g':
             m.add_g(A.GCOMM[(n + seed) % len(A.GCOMM)])
